@@ -61,6 +61,11 @@ class Program:
             return str(i)
 
 
+class NotAClosure(Unsupported):
+    """The callable handed to a modelled higher-order method cannot be identified as a closure instance (raised before
+    anything has been executed, so the caller may fall back to another way of interpreting the call)."""
+
+
 class Frame:
     __slots__ = ('fid', 'key', 'inst', 'body', 'locals', 'bb', 'si', 'dest', 'ret_bb', 'call_span')
 
@@ -85,7 +90,7 @@ class State:
     def clone(self):
         s = State.__new__(State)
         s.frames = [f.clone() for f in self.frames]
-        s.perm = dict(self.perm)
+        s.perm = dict((k, f.clone()) for k, f in self.perm.items())     # permanent slots are mutable too (FnMut closure state)
         s.heap = dict(self.heap)
         s.know = self.know.clone()
         s.effects = list(self.effects)
@@ -93,6 +98,13 @@ class State:
         s.steps = self.steps
         s.notes = list(self.notes)
         return s
+
+    def restore(self, snap):
+        """Become `snap` (a clone taken earlier) in place; `snap` must not be used afterwards."""
+        steps = self.steps
+        for a in State.__slots__:
+            setattr(self, a, getattr(snap, a))
+        self.steps = steps
 
     def frame(self, fid):
         for f in reversed(self.frames):
@@ -157,12 +169,17 @@ class Interp:
         self.total_steps = total_steps
         self.stats = {'steps': 0, 'forks': 0, 'instances': set()}
         self.domain_hook = None
+        self.rename = []        # [(actual name tuple, canonical name tuple)]: roles of private state (engine/roles.py)
 
     # ------------------------------------------------------------------ symbolic inputs
     def build_sym(self, st, ty, name, heapname=None, opts=None):
         """A symbolic value of type ty whose leaves are named by the path `name` (tuple)."""
         opts = opts or {}
         k = ty['k']
+        for a_, c_ in self.rename:
+            if name == a_:
+                name = c_
+                break
         if k == 'int':
             dom = self.domain_hook(name) if self.domain_hook else None
             return mk_lin(ty['bits'], 0, {('in', name, ty['bits'], dom): 1})
@@ -182,6 +199,13 @@ class Interp:
                 inner_adt = self.prog.adt(inner)
                 t = inner_adt['variants'][0]['fields'][0]['ty']
                 return ('model', 'cell', self.build_sym(st, t, name))
+            if path in ('core::num::NonZero', 'core::num::nonzero::NonZero'):
+                # represented by the integer it wraps (see the NonZero::new / get models): a leaf that is never 0
+                mt = re.search(r'NonZero<([ui])(\d+|size)>', ty.get('id', '') + ty.get('path', ''))
+                bits_ = 64 if (mt and mt.group(2) == 'size') else (int(mt.group(2)) if mt else None)
+                if bits_ is None or bits_ > 8:
+                    raise Unsupported('symbolic NonZero wider than 8 bits for %s' % (name,))
+                return mk_lin(bits_, 0, {('in', name, bits_, tuple(range(1, 1 << bits_))): 1})
             if adt['kind'] == 'struct':
                 vals = tuple(self.build_sym(st, f['ty'], name + (f['name'],)) for f in adt['variants'][0]['fields'])
                 return ('adt', ty['id'], 0, vals)
@@ -208,7 +232,9 @@ class Interp:
                     st.heap[hn] = ('symslice', name, to['elem'])
                 lenleaf = ('len', name)
                 ln = mk_lin(USIZE, 0, {lenleaf: 1})
-                st.know._add_bound(0, {lenleaf: 1}, 0, ((1 << 63) - 1) // max(1, size_lower_bound(self.prog, to['elem'])))
+                # environment assumption (DESIGN.md 7.3): no slice has more than 2^48 elements - beyond any address space of a
+                # supported target - so sums of a few lengths and small constants do not overflow usize
+                st.know._add_bound(0, {lenleaf: 1}, 0, min(1 << 48, ((1 << 63) - 1) // max(1, size_lower_bound(self.prog, to['elem']))))
                 return ('slice', (('heap', hn), ()), K(USIZE, 0), ln)
             st.heap[hn] = self.build_sym(st, to, name, opts=opts)
             return ('ref', (('heap', hn), ()))
@@ -312,7 +338,7 @@ class Interp:
             if kind == 'closure':
                 vals = list(old[2])
                 vals[p[1]] = self._update(st, vals[p[1]], proj[1:], val)
-                return ('closure', old[1], tuple(vals))
+                return ('closure', old[1], tuple(vals)) + tuple(old[3:])
             if kind == 'model' and old[1] == 'rangeincl':
                 vals = list(old)
                 vals[2 + p[1]] = self._update(st, vals[2 + p[1]], proj[1:], val)
@@ -536,7 +562,7 @@ class Interp:
                 raise Unsupported('projection %s on unsized slice place' % k)
             if k == 'deref':
                 v = self.read(st, target)
-                if v[0] == 'ref':
+                if v[0] in ('ref', 'dynref'):
                     target = v[1]
                 elif v[0] == 'slice':
                     target = ('sliceplace', v[1], v[2], v[3])
@@ -642,6 +668,28 @@ class Interp:
             if t['k'] == 'adt':
                 return ('adt', t['id'], c['variant'] or 0, fields)
             raise Unsupported('aggregate constant of type %s' % t['k'])
+        if k == 'ref':
+            # a named constant used by reference (`&TABLE`): its value lives in a permanent slot
+            val = self.const(st, fr, c['to'])
+            pf = Frame()
+            pf.fid = st.next_fid
+            st.next_fid += 1
+            pf.key = fr.key + '::const-ref'
+            pf.inst = fr.inst
+            pf.body = fr.body
+            pf.locals = {0: val}
+            pf.bb = 0
+            pf.si = 0
+            pf.dest = None
+            pf.ret_bb = None
+            pf.call_span = None
+            st.perm[pf.fid] = pf
+            target = (('local', pf.fid, 0), ())
+            if c.get('slice'):
+                if val[0] != 'array':
+                    raise Unsupported('slice constant of %s' % val[0])
+                return ('slice', target, K(USIZE, 0), K(USIZE, len(val[1])))
+            return ('ref', target)
         raise Unsupported('constant %s' % c.get('dbg', k))
 
     def promoted(self, st, fr, idx):
@@ -713,6 +761,11 @@ class Interp:
             v = self.operand(st, fr, r['op'])
             return ('array', (v,) * r['count'])
         if k == 'ref' or k == 'rawptr':
+            pl = r['place']
+            if len(pl['proj']) == 1 and pl['proj'][0]['k'] == 'deref':
+                v0 = fr.locals.get(pl['local'], UNINIT)
+                if v0[0] in ('str', 'fmtargs', 'dynref'):
+                    return v0       # reborrow of a string constant / trait object: the reference itself
             t = self.resolve_place(st, fr, r['place'])
             if t[0] == 'sliceplace':
                 return ('slice', t[1], t[2], t[3])
@@ -766,7 +819,7 @@ class Interp:
                     return ('model', 'rangeincl') + ops
                 return ('adt', tid, ak['variant'], ops)
             if ak['k'] == 'closure':
-                return ('closure', ak['path'], ops)
+                return ('closure', ak['path'], ops, ak.get('key'))
             raise Unsupported('aggregate %s' % ak['k'])
         raise Unsupported('rvalue %s %s' % (k, r.get('dbg', '')))
 
@@ -804,7 +857,7 @@ class Interp:
             src = r['src_ty']
             if v[0] == 'ref' and src['k'] in ('ref', 'ptr') and src['to']['k'] == 'array':
                 return ('slice', v[1], K(USIZE, 0), K(USIZE, src['to']['len']))
-            if v[0] == 'slice':
+            if v[0] in ('slice', 'dynref'):
                 return v
             if v[0] == 'ref':
                 return ('dynref', v[1])
@@ -852,11 +905,29 @@ class Interp:
                 raise Unsupported('shift by symbolic amount %s' % show_term(b))
             n = b[2] & (w - 1)
             if op.startswith('Shl'):
+                if a[0] == 'lin' and not signed:
+                    lo_, hi_ = st.know.interval(a[2], dict(a[3]))
+                    if lo_ >= 0 and (hi_ << n) <= mask(w):
+                        return mk_lin(w, a[2] << n, {l: c << n for l, c in a[3]})     # a shift used as a multiplication
                 return shl(a, n)
             return shr(a, n, signed)
         if op in ('Div', 'Rem'):
             if is_const(a) and is_const(b) and b[2] != 0 and not signed:
                 return K(w, a[2] // b[2] if op == 'Div' else a[2] % b[2])
+            if is_const(b) and b[2] != 0 and not signed and b[2] & (b[2] - 1) == 0 and a[0] in ('bv', 'lin'):
+                sh_ = b[2].bit_length() - 1       # unsigned division / remainder by 2^k: a shift / a mask
+                if a[0] == 'lin':
+                    lo, hi = st.know.interval(a[2], dict(a[3]))
+                    if lo >= 0 and hi < b[2]:
+                        return a if op == 'Rem' else K(w, 0)
+                    if op == 'Rem' and sh_ < w:
+                        # the low k bits of a linear value: the same opaque truncation a narrowing cast produces
+                        leaf = ('opq', sh_, 'trunc', a)
+                        return mk_bv(w, tuple((leaf, i) for i in range(sh_)) + (0,) * (w - sh_))
+                if op == 'Div':
+                    return shr(a, sh_, False)
+                bits_ = bits_of(a)
+                return mk_bv(w, tuple(bits_[:sh_]) + (0,) * (w - sh_))
             if is_const(b) and b[2] != 0 and not signed and a[0] in ('lin', 'bv'):
                 d_ = b[2]
                 c0, ts = lin_of(a)
@@ -904,6 +975,19 @@ class Interp:
 
     # ------------------------------------------------------------------ calls and models
     def describe_target(self, st, target):
+        s = self._describe_target(st, target)
+        if self.rename:
+            head, sep, tail = s.partition('[')
+            parts = tuple(head.split('.'))
+            best = None
+            for a_, c_ in self.rename:
+                if parts[:len(a_)] == a_ and (best is None or len(a_) > len(best[0])):
+                    best = (a_, c_)
+            if best:
+                s = '.'.join(best[1] + parts[len(best[0]):]) + sep + tail
+        return s
+
+    def _describe_target(self, st, target):
         root, proj = target
         s = root[1] if root[0] == 'heap' else '_%d' % root[2]
         v = None
@@ -1064,7 +1148,12 @@ class Interp:
             return True, ('adt', ret_ty['id'], 1, (item,))
         m = re.match(r"^<core::slice::Iter(?:Mut)?<'a, T> as core::iter::Iterator>::(fold|all|any|position|find|for_each)$", P)
         if m:
-            return True, self.iter_closure_method(st, m.group(1), callee, args)
+            try:
+                return True, self.iter_closure_method(st, m.group(1), callee, args)
+            except NotAClosure:
+                if not callee.get('default_key'):
+                    raise
+                return False, None      # a fn item or another callable: the trait's default body over next()
         if P in ('core::slice::<impl [T]>::chunks_exact', 'core::slice::<impl [T]>::chunks_exact_mut',
                  'core::slice::<impl [T]>::chunks', 'core::slice::<impl [T]>::chunks_mut'):
             sl, size = args
@@ -1119,6 +1208,16 @@ class Interp:
         if P in ('core::iter::Iterator::copied', 'core::iter::Iterator::cloned') and args[0][0] == 'model' \
                 and args[0][1] in ('iter', 'rev'):
             return True, ('model', 'copied', args[0])
+        if re.match(r'^<core::iter::\w+<.*> as core::iter::Iterator>::next$', P) and args and args[0][0] == 'ref' and self.peek_is_model(st, args[0]):
+            # an adapter whose modelled form is itself a modelled iterator (take/skip/copied/rev/step_by/zip over slices)
+            ref = args[0]
+            it = self.read(st, ref[1])
+            ret_ty = self.prog.instances[callee['key']]['sig']['output']
+            newit, item = self.model_next(st, it)
+            if item is None:
+                return True, ('adt', ret_ty['id'], 0, ())
+            self.write(st, ref[1], newit)
+            return True, ('adt', ret_ty['id'], 1, (item,))
         if P in ('<core::iter::Copied<I> as core::iter::Iterator>::next', '<core::iter::Cloned<I> as core::iter::Iterator>::next'):
             ref = args[0]
             it = self.read(st, ref[1])
@@ -1132,7 +1231,14 @@ class Interp:
             return True, ('adt', ret_ty['id'], 1, (item,))
         m = re.match(r"^(?:<.*> as core::iter::Iterator>|core::iter::Iterator)::(fold|all|any|position|find|for_each)$", P)
         if m and args and (args[0][0] == 'model' or (args[0][0] == 'ref' and self.peek_is_model(st, args[0]))):
-            return True, self.iter_closure_method(st, m.group(1), callee, args)
+            fv_ = args[2] if m.group(1) == 'fold' else args[1]
+            if fv_[0] == 'closure' or not callee.get('default_key'):
+                try:
+                    return True, self.iter_closure_method(st, m.group(1), callee, args)
+                except NotAClosure:
+                    if not callee.get('default_key'):
+                        raise
+            return False, None      # the callable is not a closure value: interpret the trait's default body (over next())
         if P == 'core::iter::Iterator::zip':
             a, b = args
             try:
@@ -1355,6 +1461,180 @@ class Interp:
             return True, ('adt', ret_ty['id'], 1, (end if back else start,))
         if P == 'core::ops::RangeInclusive::<Idx>::new':
             return True, ('model', 'rangeincl', args[0], args[1], FALSE)
+        if P in ('core::intrinsics::rotate_left', 'core::intrinsics::rotate_right') and is_const(args[1]):
+            bits = bits_of(args[0])
+            w = len(bits)
+            n_ = args[1][2] % w
+            if P.endswith('right'):
+                n_ = (w - n_) % w
+            return True, mk_bv(w, tuple(bits[(i - n_) % w] for i in range(w)))
+        if P == 'core::intrinsics::bitreverse':
+            bits = bits_of(args[0])
+            return True, mk_bv(len(bits), tuple(reversed(bits)))
+        if P in ('core::intrinsics::ctpop', 'core::intrinsics::ctlz', 'core::intrinsics::cttz', 'core::intrinsics::ctlz_nonzero', 'core::intrinsics::cttz_nonzero'):
+            a = args[0]
+            w = width(a)
+            bits = bits_of(a)
+            if P.endswith('ctpop'):
+                # population count: exact as a sum of the bits (each symbolic bit is a one-bit value)
+                c0, d = 0, {}
+                for b in bits:
+                    if b == 1:
+                        c0 += 1
+                    elif b != 0:
+                        cc, tt = lin_of(mk_bv(1, (b,)))
+                        c0 += cc
+                        for l, c in tt.items():
+                            d[l] = d.get(l, 0) + c
+                return True, mk_lin(32, c0, d)
+            # leading / trailing zeros: decided by testing the bits from one end (forks on symbolic bits)
+            order = list(reversed(range(w))) if 'ctlz' in P else list(range(w))
+            n_ = 0
+            for i in order:
+                if self.need(st, mk_cmp('Ne', mk_bv(1, (bits[i],)), K(1, 0))):
+                    return True, K(32, n_)
+                n_ += 1
+            return True, K(32, w)
+        m = re.match(r'^core::num::<impl u(8|16|32|64|128|size)>::abs_diff$', P)
+        if m:
+            a, b = args
+            if self.need(st, mk_cmp('Lt', a, b)):
+                return True, self.sub(b, a)
+            return True, self.sub(a, b)
+        if P in ('core::array::<impl [T; N]>::each_ref', 'core::array::<impl [T; N]>::each_mut') and args[0][0] == 'ref':
+            arr = self.read(st, args[0][1])
+            if arr[0] != 'array':
+                raise Unsupported('each_ref on %s' % arr[0])
+            root, proj = args[0][1]
+            return True, ('array', tuple(('ref', (root, proj + (('i', K(USIZE, i)),))) for i in range(len(arr[1]))))
+        if P == 'core::array::<impl [T; N]>::map' and args[0][0] == 'array':
+            f = args[1]
+            ckey = self.closure_key_of_value(st, f)
+            slot = Frame()
+            slot.fid = st.next_fid
+            st.next_fid += 1
+            slot.key = callee['key']
+            slot.inst = self.prog.instances[callee['key']]
+            slot.body = slot.inst['body']
+            slot.locals = {0: f}
+            slot.bb = 0
+            slot.si = 0
+            slot.dest = None
+            slot.ret_bb = None
+            slot.call_span = None
+            st.perm[slot.fid] = slot
+            fref = ('ref', (('local', slot.fid, 0), ()))
+            return True, ('array', tuple(self.call_sync(st, ckey, [fref, ('tuple', (e,))]) for e in args[0][1]))
+        if P in ('core::ops::Fn::call', 'core::ops::FnMut::call_mut', 'core::ops::FnOnce::call_once') and args and args[0][0] == 'dynref':
+            inner = self.read(st, args[0][1])
+            ckey = self.closure_key_of_value(st, inner)
+            return True, self.call_sync(st, ckey, [('ref', args[0][1]), args[1]])
+        if P in ('core::num::NonZero::<T>::new', 'core::num::nonzero::NonZero::<T>::new'):
+            # a NonZero value is represented by the integer it wraps
+            ret_ty = self.prog.instances[callee['key']]['sig']['output']
+            x = args[0]
+            if self.need(st, mk_cmp('Ne', x, K(width(x), 0))):
+                return True, ('adt', ret_ty['id'], 1, (x,))
+            return True, ('adt', ret_ty['id'], 0, ())
+        if P in ('core::num::NonZero::<T>::get', 'core::num::nonzero::NonZero::<T>::get') and args[0][0] in ('k', 'bv', 'lin'):
+            return True, args[0]
+        if P == 'core::slice::<impl [T]>::reverse' and args[0][0] == 'slice':
+            sl = args[0]
+            n_ = self.conc(st, self.slice_len(sl))
+            if not is_const(n_) or n_[2] > 64:
+                raise Unsupported('reverse of a slice of symbolic length')
+            lo = self.conc(st, sl[2])
+            vals = [self.read_elem(st, sl[1], self.add(lo, K(USIZE, i))) for i in range(n_[2])]
+            for i, v_ in enumerate(reversed(vals)):
+                self.write(st, (sl[1][0], sl[1][1] + (('i', self.add(lo, K(USIZE, i))),)), v_)
+            return True, UNIT
+        if re.match(r"^<core::slice::ChunksExact(Mut)?<'a, T>>::(remainder|into_remainder)$|^core::slice::ChunksExact(Mut)?::<'a, T>::(remainder|into_remainder)$", P):
+            it = args[0] if args[0][0] == 'model' else self.read(st, args[0][1])
+            if it[0] != 'model' or it[1] != 'chunks' or not it[5]:
+                raise Unsupported('remainder on %s' % (it[0],))
+            sl, size = it[2], it[3]
+            ln = self.conc(st, self.slice_len(sl))
+            if not is_const(ln):
+                raise Unsupported('chunks_exact remainder of a slice of symbolic length')
+            full = (ln[2] // size[2]) * size[2]
+            return True, ('slice', sl[1], self.add(sl[2], K(USIZE, full)), sl[3])
+        if P in ('core::iter::Iterator::skip', 'core::iter::Iterator::take') and args[0][0] == 'model' and args[0][1] == 'iter':
+            it, n_ = args
+            sl, pos = it[2], it[3]
+            ln = self.slice_len(sl)
+            target = self.add(pos, n_)
+            if P.endswith('skip'):
+                if self.need(st, mk_cmp('Le', target, ln)):
+                    return True, ('model', 'iter', sl, target)
+                return True, ('model', 'iter', sl, ln)
+            if self.need(st, mk_cmp('Le', target, ln)):
+                return True, ('model', 'iter', ('slice', sl[1], sl[2], self.add(sl[2], target)), pos)
+            return True, it
+        if P == 'core::iter::Iterator::step_by' and args[0][0] == 'adt' and self.prog.adts[args[0][1]]['path'] == 'core::ops::Range':
+            start, end = args[0][3]
+            step = args[1]
+            if not is_const(step):
+                raise Unsupported('step_by with a symbolic step')
+            if step[2] == 0:
+                raise Panic('step_by', 'assertion failed: step != 0')
+            return True, ('model', 'steprange', start, end, step)
+        if P in ('<core::iter::StepBy<I> as core::iter::Iterator>::next',):
+            ref = args[0]
+            it = self.read(st, ref[1])
+            if it[0] != 'model':
+                return False, None
+            ret_ty = self.prog.instances[callee['key']]['sig']['output']
+            newit, item = self.model_next(st, it)
+            if item is None:
+                return True, ('adt', ret_ty['id'], 0, ())
+            self.write(st, ref[1], newit)
+            return True, ('adt', ret_ty['id'], 1, (item,))
+        m = re.match(r"^core::slice::cmp::<impl core::cmp::PartialEq<\[U\]> for \[T\]>::(eq|ne)$|^core::array::equality::<impl core::cmp::PartialEq<\[U; N\]> for \[T\]>::(eq|ne)$|^core::array::equality::<impl core::cmp::PartialEq<\[U\]> for \[T; N\]>::(eq|ne)$", P)
+        if m:
+            a_, b_ = self.as_slice(st, args[0]), self.as_slice(st, args[1])
+            r_ = self.slices_equal(st, a_, b_)
+            ne = (m.group(1) or m.group(2) or m.group(3)) == 'ne'
+            return True, ((FALSE if r_ else TRUE) if ne else (TRUE if r_ else FALSE))
+        if P in ('core::slice::<impl [T]>::starts_with', 'core::slice::<impl [T]>::ends_with') and args[0][0] == 'slice' and args[1][0] == 'slice':
+            hay, needle = args
+            n_ = self.slice_len(needle)
+            if not self.need(st, mk_cmp('Le', n_, self.slice_len(hay))):
+                return True, FALSE
+            if P.endswith('starts_with'):
+                part = ('slice', hay[1], hay[2], self.add(hay[2], n_))
+            else:
+                part = ('slice', hay[1], self.sub(hay[3], n_), hay[3])
+            return True, (TRUE if self.slices_equal(st, part, needle) else FALSE)
+        if re.match(r'^(?:<.*> as core::iter::Iterator>|core::iter::Iterator)::nth$', P) and args and args[0][0] == 'ref' \
+                and self.peek_is_model(st, args[0]) and is_const(args[1]) and args[1][2] <= 300:
+            ref = args[0]
+            it = self.read(st, ref[1])
+            ret_ty = self.prog.instances[callee['key']]['sig']['output']
+            item = None
+            for _ in range(args[1][2] + 1):
+                it, item = self.model_next(st, it)
+                if item is None:
+                    break
+            self.write(st, ref[1], it)
+            if item is None:
+                return True, ('adt', ret_ty['id'], 0, ())
+            return True, ('adt', ret_ty['id'], 1, (item,))
+        if P in ('core::slice::<impl [T]>::strip_prefix', 'core::slice::<impl [T]>::strip_suffix') and args[0][0] == 'slice':
+            hay = args[0]
+            needle = self.as_slice(st, args[1])
+            ret_ty = self.prog.instances[callee['key']]['sig']['output']
+            n_ = self.slice_len(needle)
+            if not self.need(st, mk_cmp('Le', n_, self.slice_len(hay))):
+                return True, ('adt', ret_ty['id'], 0, ())
+            if P.endswith('strip_prefix'):
+                part = ('slice', hay[1], hay[2], self.add(hay[2], n_))
+                rest = ('slice', hay[1], self.add(hay[2], n_), hay[3])
+            else:
+                part = ('slice', hay[1], self.sub(hay[3], n_), hay[3])
+                rest = ('slice', hay[1], hay[2], self.sub(hay[3], n_))
+            if self.slices_equal(st, part, needle):
+                return True, ('adt', ret_ty['id'], 1, (rest,))
+            return True, ('adt', ret_ty['id'], 0, ())
         # --- Cell
         if P == 'core::cell::Cell::<T>::new':
             return True, ('model', 'cell', args[0])
@@ -1376,8 +1656,27 @@ class Interp:
                 frm.locals[root[2]] = self._update(st, frm.locals[root[2]], proj, ('model', 'cell', args[1]))
             else:
                 st.heap[root[1]] = self._update(st, st.heap[root[1]], proj, ('model', 'cell', args[1]))
+            # `replace` hands out the old value; a dependence of any output on it shows in the value terms (the cell's
+            # initial content is a symbolic leaf), so no separate read effect is recorded for it
             st.effects.append(('cellwrite', name, args[1]))
             return True, (c[2] if P.endswith('replace') else UNIT)
+        if P == 'core::cell::Cell::<T>::take':
+            c = self.read(st, args[0][1])
+            if c[0] != 'model' or c[1] != 'cell':
+                raise Unsupported('Cell::take on %s' % (c[0],))
+            ret_ty = self.prog.instances[callee['key']]['sig']['output'] if callee.get('key') in self.prog.instances else None
+            if ret_ty is None or ret_ty['k'] not in ('int', 'bool'):
+                raise Unsupported('Cell::take of a non-integer cell')
+            zero = K(ty_bits(ret_ty), 0)
+            name = self.describe_target(st, args[0][1])
+            root, proj = args[0][1]
+            if root[0] == 'local':
+                frm = st.frame(root[1])
+                frm.locals[root[2]] = self._update(st, frm.locals[root[2]], proj, ('model', 'cell', zero))
+            else:
+                st.heap[root[1]] = self._update(st, st.heap[root[1]], proj, ('model', 'cell', zero))
+            st.effects.append(('cellwrite', name, zero))
+            return True, c[2]
         if P == 'smbus_pec::pec':
             return True, self.pec(st, args[0])
         if P == 'core::mem::size_of':
@@ -1394,9 +1693,39 @@ class Interp:
                 return ('slice', v[1], K(USIZE, 0), K(USIZE, len(arr[1])))
         raise Unsupported('cannot view %s as a slice' % v[0])
 
+    def slices_equal(self, st, a, b):
+        """Element-wise equality of two slices of integers: decided by forking on the lengths and on each element."""
+        la, lb = self.slice_len(a), self.slice_len(b)
+        if not self.need(st, mk_cmp('Eq', la, lb)):
+            return False
+        n_ = self.conc(st, la)
+        if not is_const(n_):
+            n_ = self.conc(st, lb)
+        if not is_const(n_):
+            c0, ts = lin_of(la)
+            lo, hi = st.know.interval(c0, ts)
+            if hi - lo > 64:
+                raise Unsupported('comparison of slices of unbounded symbolic length')
+            for v in range(lo, hi + 1):
+                if self.need(st, mk_cmp('Eq', la, K(USIZE, v))):
+                    n_ = K(USIZE, v)
+                    break
+            else:
+                raise Infeasible()
+        if n_[2] > 64:
+            raise Unsupported('comparison of slices longer than 64 elements')
+        for i in range(n_[2]):
+            x = self.read_elem(st, a[1], self.add(a[2], K(USIZE, i)))
+            y = self.read_elem(st, b[1], self.add(b[2], K(USIZE, i)))
+            if x[0] not in ('k', 'bv', 'lin') or y[0] not in ('k', 'bv', 'lin'):
+                raise Unsupported('comparison of slices of non-integer elements')
+            if not self.need(st, mk_cmp('Eq', x, y)):
+                return False
+        return True
+
     def as_iter(self, st, v, callee):
         """IntoIterator::into_iter of the kinds of value the models know."""
-        if v[0] == 'model' and v[1] in ('iter', 'zip', 'arrayiter', 'chunks', 'rev', 'copied', 'windows'):
+        if v[0] == 'model' and v[1] in ('iter', 'zip', 'arrayiter', 'chunks', 'rev', 'copied', 'windows', 'steprange'):
             return v
         if v[0] == 'array':
             return ('model', 'arrayiter', v, K(USIZE, 0))
@@ -1446,6 +1775,14 @@ class Interp:
             if item is None:
                 return it, None
             return ('model', 'copied', ni), self.read(st, item[1])
+        if it[1] == 'steprange':
+            cur, end, step = it[2], it[3], it[4]
+            if self.need(st, mk_cmp('Lt', cur, end)):
+                nxt = self.add(cur, step)
+                if is_const(cur) and cur[2] > (1 << 20):
+                    raise Unsupported('step_by loop does not terminate')
+                return ('model', 'steprange', nxt, end, step), cur
+            return it, None
         if it[1] == 'windows':
             sl, size, pos = it[2], it[3], it[4]
             if pos[2] > 300:
@@ -1528,6 +1865,8 @@ class Interp:
     def call_sync(self, st, key, args):
         """Run a callee to its return inside a model. A fork inside it re-executes the whole modelled call."""
         depth = len(st.frames)
+        if getattr(self, '_stmt_snap', None) is None:
+            self._stmt_snap = st.clone()
         self.push_frame(st, key, args, None, -1, None)
         holder = []
         guard = 0
@@ -1563,12 +1902,14 @@ class Interp:
             v = self.read(st, ref[1])
         except Exception:
             return False
-        return isinstance(v, tuple) and len(v) > 1 and v[0] == 'model' and v[1] in ('iter', 'zip', 'arrayiter', 'chunks', 'rev', 'copied', 'windows')
+        return isinstance(v, tuple) and len(v) > 1 and v[0] == 'model' and v[1] in ('iter', 'zip', 'arrayiter', 'chunks', 'rev', 'copied', 'windows', 'steprange')
 
     def closure_key_of_value(self, st, f):
         """The instance of a closure value: its definition path, monomorphised as the innermost frame that defines it."""
         if not (isinstance(f, tuple) and f and f[0] == 'closure'):
-            raise Unsupported('a callable that is not a closure value is passed to a modelled iterator method')
+            raise NotAClosure('a callable that is not a closure value is passed to a modelled iterator method')
+        if len(f) > 3 and f[3] and f[3] in self.prog.instances:
+            return f[3]         # the monomorphic instance recorded where the closure value was built
         cands = [k for k, i in self.prog.instances.items() if i.get('closure') and i['path'] == f[1]]
         if len(cands) == 1:
             return cands[0]
@@ -1576,7 +1917,7 @@ class Interp:
             hit = [k for k in cands if k.startswith(fr.key + '::{closure')]
             if len(hit) == 1:
                 return hit[0]
-        raise Unsupported('cannot identify the instance of closure %s (%d candidates)' % (f[1], len(cands)))
+        raise NotAClosure('cannot identify the instance of closure %s (%d candidates)' % (f[1], len(cands)))
 
     def iter_closure_method(self, st, meth, callee, args):
         ckey_from_value = False
@@ -1618,7 +1959,7 @@ class Interp:
         st.perm[slot.fid] = slot
         fref = f_by_ref or ('ref', (('local', slot.fid, 0), ()))
         if ckey is None:
-            raise Unsupported('a callable that is not a closure value is passed to a modelled iterator method')
+            raise NotAClosure('a callable that is not a closure value is passed to a modelled iterator method')
         n_ = 0
         result = None
         pos = 0
@@ -1862,6 +2203,7 @@ class Interp:
                 return
             fr = st.frames[-1]
             blk = fr.body['blocks'][fr.bb]
+            self._stmt_snap = None      # set by call_sync: the state before the first synchronous callee of this statement
             try:
                 if fr.si < len(blk['stmts']):
                     s = blk['stmts'][fr.si]
@@ -1879,6 +2221,11 @@ class Interp:
                     return
             except Fork as f:
                 self.stats['forks'] += 1
+                if self._stmt_snap is not None:
+                    # the statement ran callees synchronously (closure-driven models) before it had to fork: their side
+                    # effects must not survive into the re-execution of the statement
+                    st.restore(self._stmt_snap)
+                    self._stmt_snap = None
                 other = st.clone()
                 ok_a = ok_b = True
                 try:
@@ -1970,6 +2317,12 @@ class Interp:
                 raise Unsupported('modelled call that diverges')
             self.assign(st, fr, t['dest'], val)
             fr.bb, fr.si = t['target'], 0
+            return False
+        if callee.get('default_key') and args and (args[0][0] == 'model' or (args[0][0] == 'ref' and self.peek_is_model(st, args[0]))) \
+                and callee['default_key'] in self.prog.instances:
+            # an overridden iterator-trait method on a modelled iterator without a model of its own: the trait's default
+            # body, which only needs next() / next_back()
+            self.push_frame(st, callee['default_key'], args, t['dest'], t['target'], t['fn_span'].get('callsite') or t['fn_span']['at'])
             return False
         if not callee['has_mir'] or callee['key'] is None:
             if t['target'] is None or path.startswith('core::panicking::'):
